@@ -1887,6 +1887,57 @@ def _dtype_kind(e, fi, depth=0):
     return None
 
 
+_NATIVE_CODES = {"i8": ("i8", "int64", "=i8"), "f8": ("f8", "float64", "=f8")}
+
+
+def _dtype_spellings_to_codes(e, fi):
+    """the field list of a record dtype with every field type that is a spelling of the native int64 / float64 dtype replaced by the
+    two-letter code ('i8' / 'f8') the comparison with the fprintf conversions is written in: `np.int64`, `numpy.float64`, `np.dtype('i8')`,
+    'int64', '=f8'.  Spellings whose width depends on the platform (`int`, `np.int_`, 'l') and everything not in the table are left as
+    they are, so the literal evaluation fails (no verdict) or the comparison sees a type that is not in its table."""
+    if not isinstance(e, (ast.List, ast.Tuple)):
+        return e
+    out = []
+    for fld in e.elts:
+        if isinstance(fld, ast.Tuple) and len(fld.elts) == 2:
+            ty = fld.elts[1]
+            code = None
+            if isinstance(ty, ast.Call) and call_name(ty) == "dtype" and _is_np(ty.func) and len(ty.args) == 1 and not ty.keywords:
+                ty = ty.args[0]
+            if isinstance(ty, ast.Constant) and isinstance(ty.value, str):
+                code = next((c for c, sp_ in _NATIVE_CODES.items() if ty.value in sp_), None)
+            elif isinstance(ty, ast.Attribute) and _is_np(ty) and isinstance(ty.value, ast.Name) and ty.value.id not in fi.params \
+                    and not any(isinstance(n, ast.Name) and n.id == ty.value.id and isinstance(n.ctx, ast.Store) for n in ast.walk(fi.node)):
+                # the fixed-width scalar types; the ones that are not 8 bytes wide get their own code, which the comparison rejects
+                code = {"int64": "i8", "float64": "f8", "double": "f8", "int32": "i4", "int16": "i2", "int8": "i1", "uint64": "u8", "uint32": "u4",
+                        "uint16": "u2", "uint8": "u1", "float32": "f4", "float16": "f2"}.get(ty.attr)
+            if code is not None:
+                fld = ast.Tuple(elts=[fld.elts[0], ast.Constant(value=code)], ctx=ast.Load())
+        out.append(fld)
+    return ast.List(elts=out, ctx=ast.Load())
+
+
+def _recfile_mode(repo, call):
+    """the constant `mode` a Recfile(...) call opens the file with: the argument bound to the constructor's parameter `mode` (by position or
+    by keyword, as the signature of Recfile.__init__ in the tree has it), its default when the call leaves it out; None when not a constant"""
+    pos, default = 1, None
+    try:
+        init = repo.func("esutil.recfile.Util.Recfile.__init__")
+        names = [p for p in init.params if p != "self"]
+        if "mode" not in names:
+            return None
+        pos = names.index("mode")
+        default = init.defaults.get("mode")
+    except Exception:
+        pass
+    if any(isinstance(a, ast.Starred) for a in call.args) or any(k.arg is None for k in call.keywords):
+        return None
+    e = call.args[pos] if len(call.args) > pos else kwarg(call, "mode")
+    if e is None:
+        e = default
+    return const_value(e) if e is not None else None
+
+
 def _dtype_subject(e):
     """name V when e is `V.dtype`"""
     if isinstance(e, ast.Attribute) and e.attr == "dtype" and isinstance(e.value, ast.Name):
@@ -2832,21 +2883,24 @@ def python_rules(chk, repo, m):
     dt = None
     delim = None
     okmode = False
+    mode_known = True
     for x in walk_no_nested(rp.node):
         if isinstance(x, ast.Call) and call_name(x) == "Recfile":
             delim = const_value(kwarg(x, "delim")) if kwarg(x, "delim") is not None else None
             dexpr = kwarg(x, "dtype")
-            okmode = len(x.args) >= 2 and const_value(x.args[1]) == "r" and dexpr is not None
+            mode = _recfile_mode(repo, x)
+            mode_known = mode is not None       # a mode that is not a constant is not judged (no verdict)
+            okmode = mode == "r" and dexpr is not None
             if dexpr is not None:
                 # the dtype literal: written in place, a single-definition local, or a module-level constant
                 dexpr = rules.expand(dexpr, rp.node)
                 if isinstance(dexpr, ast.Name) and dexpr.id in rp.module.consts:
                     dexpr = rp.module.consts[dexpr.id]
                 try:
-                    dt = ast.literal_eval(dexpr)
+                    dt = ast.literal_eval(_dtype_spellings_to_codes(dexpr, rp))
                 except Exception:
                     dt = None
-    located = fmt is not None and dt is not None and delim is not None
+    located = fmt is not None and dt is not None and delim is not None and mode_known
     ok = located
     if ok:
         pd = cstr.printf_directives(fmt)
